@@ -128,8 +128,8 @@ def record_session(sc):
 
 
 def session_graph(rnd):
-    """random graph + a session of 2-4 batches over it; supplied nodes are requested outputs or pool stores (as elfi's own
-    samplers and pools supply them), never observed-data dependent rejections"""
+    """random graph + a session of 2-4 batches over it; supplied nodes are pool stores (mode pool) or any nodes of the batch
+    (mode override); never observed-data dependent rejections"""
     for _ in range(50):
         g = random_graph(rnd, rnd.randint(4, 8))
         g["obs"] = []                       # no observed twins: sessions are about supplied values x cached order
@@ -143,7 +143,13 @@ def session_graph(rnd):
             cand = stores
         else:
             stores = []
-            cand = [o[1] for o in g["outs"] if g["kind"][o[1]] != "const"]
+            # values may be given for any node of the batch's net (BatchHandler.submit(batch)), requested or not; the net holds
+            # the requested outputs and what they depend on
+            need, front = set(), {o[1] for o in g["outs"]}
+            while front:
+                need |= front
+                front = {p for x in front for p in list(g["pos"][x]) + [e[1] for e in g["named"][x]]} - need
+            cand = [x for x in nonconst if x in need]
             if not cand:
                 continue
         steps = [sorted(x for x in cand if rnd.random() < p) for p in rnd.sample([0.0, 0.5, 1.0, 0.5], rnd.randint(2, 4))]
